@@ -82,38 +82,27 @@ Proof.
   rewrite blocked_outer_eq by assumption. apply outer_ext. apply dq_mul_eq.
 Qed.
 
-Theorem qv_outer_lazy_unit k sA sV (A : list Rq) (V : list Rv) :
-  (0 < k)%nat -> length A = size sA -> length V = size sV -> all_unitq A ->
+(* Quaternion.outer(Vector3d): every NON-ZERO quaternion (bare Quaternions need
+   not be unit); the lazy path normalises first, as both eager backends do *)
+Theorem qv_outer_lazy_eq k sA sV (A : list Rq) (V : list Rv) :
+  (0 < k)%nat -> length A = size sA -> length V = size sV -> Forall (fun q => q <> zq ROps) A ->
   qv_outer_lazy ROps k sA sV A V = qv_outer_eager ROps A V.
 Proof.
-  intros Hk HA HV HU. unfold qv_outer_lazy, qv_outer_eager.
-  rewrite blocked_outer_eq by assumption. apply outer_ext_in. intros q v Hq _.
-  unfold all_unitq in HU. rewrite Forall_forall in HU.
-  rewrite dq_rot_unit, qv_builtin_unit by (apply HU; exact Hq). reflexivity.
+  intros Hk HA HV HN. unfold qv_outer_lazy, qv_outer_eager.
+  rewrite blocked_outer_eq by (try rewrite map_length; assumption).
+  rewrite outer_map_l. apply outer_ext_in. intros q v Hq _.
+  rewrite Forall_forall in HN. apply dq_rot_qunit, HN, Hq.
 Qed.
 
-(* for arbitrary non-zero quaternions the lazy result is the eager one scaled by |q|^2 *)
-Theorem qv_outer_lazy_scaled k sA sV (A : list Rq) (V : list Rv) :
+Theorem qv_outer_lazy_layout k sA sV (A : list Rq) (V : list Rv) i j d dv :
   (0 < k)%nat -> length A = size sA -> length V = size sV -> Forall (fun q => q <> zq ROps) A ->
-  qv_outer_lazy ROps k sA sV A V
-  = outer (fun q v => vscale ROps (qnorm2 ROps q) (qv_mul_builtin ROps q v)) A V.
+  valid sA i -> valid sV j ->
+  aget dv (sA ++ sV) (qv_outer_lazy ROps k sA sV A V) (i ++ j)
+  = qv_mul_builtin ROps (aget d sA A i) (aget dv sV V j)
+  /\ length (qv_outer_lazy ROps k sA sV A V) = size (sA ++ sV).
 Proof.
-  intros Hk HA HV HN. unfold qv_outer_lazy.
-  rewrite blocked_outer_eq by assumption. apply outer_ext_in. intros q v Hq _.
-  rewrite Forall_forall in HN. apply dq_rot_scaled, HN, Hq.
-Qed.
-
-Theorem qv_outer_lazy_nonunit_refuted :
-  exists k sA sV (A : list Rq) (V : list Rv),
-    (0 < k)%nat /\ length A = size sA /\ length V = size sV /\ Forall (fun q => q <> zq ROps) A /\
-    qv_outer_lazy ROps k sA sV A V <> qv_outer_eager ROps A V.
-Proof.
-  exists 1%nat, [1%nat], [1%nat], [(2, 0, 0, 0)], [(1, 0, 0)].
-  repeat split; try reflexivity; try lia.
-  - constructor; [|constructor]. cbv [zq]; rsimpl. intros E; injection E; intros; lra.
-  - unfold qv_outer_lazy. rewrite blocked_outer_eq by (try reflexivity; lia).
-    unfold qv_outer_eager, outer. cbn [flat_map map app]. intros E.
-    apply dq_rot_nonunit_differs. exact (f_equal (fun l => hd (zv ROps) l) E).
+  intros. rewrite qv_outer_lazy_eq by assumption. unfold qv_outer_eager, aget.
+  apply outer_shaped; assumption.
 Qed.
 
 (* ---------------------------------------------------------------- Rotation.outer *)
@@ -174,25 +163,24 @@ Lemma eager_order_swap ns no : eager_order ns no = swap_order ns no.
 Proof. reflexivity. Qed.
 
 (* what the lazy path computes, for all shapes: indexed self.shape ++ other.shape,
-   flags never used *)
+   the flag of the pair selects the symmetry elements *)
 Theorem ori_lazy_char k ss so (X Y S : list Rr) i j :
   (0 < k)%nat -> length X = size ss -> length Y = size so -> valid ss i -> valid so j ->
   let r := ori_dot_outer_lazy ROps k ss so X Y S in
   fst r = ss ++ so /\ length (snd r) = size (ss ++ so) /\
   aget 0 (ss ++ so) (snd r) (i ++ j)
-  = sym_dot_lazy ROps S (qmul ROps (fst (aget (zq ROps, false) so Y j))
-                                   (qconj ROps (fst (aget (zq ROps, false) ss X i)))).
+  = sym_dot_lazy ROps S (rmul ROps (aget (zq ROps, false) so Y j)
+                                   (rinv ROps (aget (zq ROps, false) ss X i))).
 Proof.
   intros Hk HX HY Hi Hj. unfold ori_dot_outer_lazy. cbv zeta. cbn [fst snd].
   rewrite eager_order_swap, tr_shape_swap.
   split; [reflexivity|]. split; [unfold transpose_nd; rewrite tab_length, tr_shape_swap; reflexivity|].
   change (o_ofZ ROps 0) with 0. rewrite transpose_swap by assumption.
-  destruct (blocked_outer_layout (fun y x => sym_dot_lazy ROps S (dq_mul ROps y x))
-              (zq ROps) (zq ROps) 0 k so ss (map fst Y) (map (fun x => qconj ROps (fst x)) X) j i)
-    as [E _]; try rewrite map_length; try assumption.
-  rewrite E. rewrite dq_mul_eq.
-  rewrite (aget_map' fst (zq ROps, false)) by assumption.
-  rewrite (aget_map' (fun x => qconj ROps (fst x)) (zq ROps, false)) by assumption. reflexivity.
+  destruct (blocked_outer_layout
+              (fun y x => sym_dot_lazy ROps S (dq_mul ROps (fst y) (qconj ROps (fst x)), xorb (snd y) (snd x)))
+              (zr ROps) (zr ROps) 0 k so ss Y X j i)
+    as [E _]; [assumption..|].
+  cbv beta in E. rewrite dq_mul_eq in E. exact E.
 Qed.
 
 (* the eager path, all shapes: same layout, flags used *)
@@ -222,9 +210,6 @@ Proof.
   rewrite HL. apply ravel_lt; assumption.
 Qed.
 
-Lemma drop_flags_length (X : list Rr) : length (drop_flags X) = length X.
-Proof. apply map_length. Qed.
-
 (* layout of angle_with_outer: both modes return self.shape ++ other.shape, for
    every pair of shapes (any numbers of axes) *)
 Theorem awo_layout k ss so (X Y S : list Rr) :
@@ -237,79 +222,49 @@ Proof.
   unfold transpose_nd. rewrite !tab_length, tr_shape_swap. repeat split; reflexivity.
 Qed.
 
-(* OUTSIDE THE FINDING (unit quaternions, no improper flag on `other`; the flags of
-   self are dropped by both modes; symmetry elements proper or improper):
-   angle_with_outer(lazy=True, chunk_size=k) = angle_with_outer(lazy=False),
-   shape and values, every chunk size, every pair of shapes *)
+(* angle_with_outer(lazy=True, chunk_size=k) = angle_with_outer(lazy=False), shape
+   and values, for every chunk size, every pair of shapes, ALL improper flags on
+   self, other and the symmetry elements (unit quaternions, which orientations
+   and symmetry elements hold) *)
 Theorem awo_lazy_eq_eager k ss so (X Y S : list Rr) :
   (0 < k)%nat -> length X = size ss -> length Y = size so ->
-  all_unit X -> all_unit Y -> all_unit S -> all_proper Y ->
+  all_unit X -> all_unit Y -> all_unit S ->
   awo_lazy ROps k ss so X Y S = awo_eager ROps ss so X Y S.
 Proof.
-  intros Hk HX HY UX UY US PY.
+  intros Hk HX HY UX UY US.
   destruct (awo_layout k ss so X Y S) as [F1 [F2 [L1 L2]]].
   apply injective_projections; [rewrite F1, F2; reflexivity|].
   apply (shaped_ext (ss ++ so) _ _ (ang ROps 0)); [exact L1|exact L2|].
   intros idx Hv. destruct (valid_app_inv ss so idx Hv) as [Hi [Hj E]]. rewrite E.
   set (i := firstn (length ss) idx) in *. set (j := skipn (length ss) idx) in *. clearbody i j.
   unfold awo_lazy, awo_lazy_with, awo_eager, awo_eager_with. cbn [snd]. rewrite !aget_map. f_equal.
-  assert (HXd : length (drop_flags X) = size ss) by (rewrite drop_flags_length; exact HX).
-  destruct (ori_lazy_char k ss so (drop_flags X) Y S i j Hk HXd HY Hi Hj) as [_ [_ E1]].
-  destruct (ori_eager_char ss so (drop_flags X) Y S i j HXd HY Hi Hj) as [_ [_ E2]].
+  destruct (ori_lazy_char k ss so X Y S i j Hk HX HY Hi Hj) as [_ [_ E1]].
+  destruct (ori_eager_char ss so X Y S i j HX HY Hi Hj) as [_ [_ E2]].
   change (o_ofZ ROps 0) with 0 in *. rewrite E1, E2. clear E1 E2.
-  unfold drop_flags. rewrite !(aget_map' (fun x => (fst x, false)) (zq ROps, false)) by assumption.
   pose proof (aget_Forall _ (zq ROps, false) so Y j UY HY Hj) as Uy.
-  pose proof (aget_Forall _ (zq ROps, false) so Y j PY HY Hj) as Py.
   pose proof (aget_Forall _ (zq ROps, false) ss X i UX HX Hi) as Ux.
   destruct (aget (zq ROps, false) so Y j) as [y fy].
-  destruct (aget (zq ROps, false) ss X i) as [x fx]. cbn [fst snd] in *. subst fy.
-  unfold rmul, rinv. cbn [fst snd xorb].
-  symmetry. apply sym_dot_proper.
-  - apply qmul_unit; [exact Uy|]. rewrite qnorm2_conj. exact Ux.
+  destruct (aget (zq ROps, false) ss X i) as [x fx]. cbn [fst snd] in *.
+  symmetry. apply sym_dot_eq.
+  - unfold rmul, rinv. cbn [fst snd]. apply qmul_unit; [exact Uy|]. rewrite qnorm2_conj. exact Ux.
   - exact US.
 Qed.
 
 (* Orientation.get_distance_matrix = angle_with_outer(self, self) *)
 Corollary odm_lazy_eq_eager k s (X S : list Rr) :
-  (0 < k)%nat -> length X = size s -> all_unit X -> all_unit S -> all_proper X ->
+  (0 < k)%nat -> length X = size s -> all_unit X -> all_unit S ->
   awo_lazy ROps k s s X X S = awo_eager ROps s s X X S.
 Proof. intros. apply awo_lazy_eq_eager; assumption. Qed.
 
-(* FINDING (improper flags): element level, carried to the arrays by the two
-   characterisations above *)
-Theorem awo_lazy_improper_refuted :
-  (* an improper `other`, symmetry {1}: eager angle pi, lazy angle 0 *)
+(* the flags are used by both modes: identity symmetry, one-element self, one-element
+   IMPROPER other -- angle pi in both modes (it was 0 in the lazy mode before the repair) *)
+Theorem awo_improper_pair_pi :
   ang ROps (sym_dot_eager ROps [((1, 0, 0, 0), false)] ((1, 0, 0, 0), true)) = PI /\
-  ang ROps (sym_dot_lazy ROps [((1, 0, 0, 0), false)] (1, 0, 0, 0)) = 0.
+  ang ROps (sym_dot_lazy ROps [((1, 0, 0, 0), false)] ((1, 0, 0, 0), true)) = PI /\
+  ang ROps (sym_dot_lazy ROps [((1, 0, 0, 0), false)] ((1, 0, 0, 0), false)) = 0.
 Proof.
-  destruct sym_dot_improper_pair_differs as [E1 E2].
-  rewrite E1, E2. split; [apply ang_0 | apply ang_1].
-Qed.
-
-(* ... carried to the arrays: a one-element self, a one-element improper other *)
-Theorem awo_lazy_improper_refuted_arrays :
-  exists k ss so (X Y S : list Rr),
-    (0 < k)%nat /\ length X = size ss /\ length Y = size so /\ all_unit X /\ all_unit Y /\ all_unit S /\
-    awo_lazy ROps k ss so X Y S <> awo_eager ROps ss so X Y S.
-Proof.
-  exists 1%nat, [1%nat], [1%nat], [((1, 0, 0, 0), false)], [((1, 0, 0, 0), true)], [((1, 0, 0, 0), false)].
-  assert (U : qnorm2 ROps (1, 0, 0, 0) = 1) by (qunfold; ring).
-  repeat split; try reflexivity; try lia; try (repeat constructor; exact U).
-  intros E. apply (f_equal (fun r => aget (ang ROps 0) ([1%nat] ++ [1%nat]) (snd r) ([0%nat] ++ [0%nat]))) in E.
-  assert (V : valid [1%nat] [0%nat]) by (repeat constructor).
-  unfold awo_lazy, awo_lazy_with, awo_eager, awo_eager_with in E. cbn [snd] in E.
-  rewrite !aget_map in E.
-  destruct (ori_lazy_char 1 [1%nat] [1%nat] (drop_flags [((1, 0, 0, 0), false)]) [((1, 0, 0, 0), true)]
-              [((1, 0, 0, 0), false)] [0%nat] [0%nat]) as [_ [_ E1]]; try reflexivity; try lia; try exact V.
-  destruct (ori_eager_char [1%nat] [1%nat] (drop_flags [((1, 0, 0, 0), false)]) [((1, 0, 0, 0), true)]
-              [((1, 0, 0, 0), false)] [0%nat] [0%nat]) as [_ [_ E2]]; try reflexivity; try exact V.
-  change (o_ofZ ROps 0) with 0 in *. rewrite E1, E2 in E. clear E1 E2.
-  cbv [aget ravel nth drop_flags map fst snd rmul rinv xorb size fold_right Nat.mul Nat.add] in E.
-  replace (qmul ROps (1, 0, 0, 0) (qconj ROps (1, 0, 0, 0))) with ((1, 0, 0, 0) : Rq) in E
-    by (qunfold; tuple_eq; ring).
-  destruct awo_lazy_improper_refuted as [A1 A2].
-  assert (H0 : 0 = PI) by exact (eq_trans (eq_sym A2) (eq_trans E A1)).
-  pose proof PI_RGT_0. lra.
+  destruct sym_dot_improper_pair as [E1 [E2 E3]].
+  rewrite E1, E2, E3. repeat split; try apply ang_0. apply ang_1.
 Qed.
 
 (* ---------------------------------------------------------------- Misorientation.get_distance_matrix *)
@@ -356,6 +311,6 @@ Proof.
   unfold rot_outer_lazy, rot_vouter_lazy, qq_outer_lazy, qv_outer_lazy, vec_dot_outer_lazy,
     awo_lazy, awo_lazy_with, ori_dot_outer_lazy. cbv zeta.
   repeat split; intros;
-    rewrite !blocked_outer_eq by (repeat (rewrite map_length || rewrite drop_flags_length); assumption);
+    rewrite !blocked_outer_eq by (repeat rewrite map_length; assumption);
     reflexivity.
 Qed.
